@@ -9,7 +9,8 @@ ID = "C16"
 LEVEL = "exploration"
 TECHNIQUE = "model-based generation of selection histories (every allowed plate may be picked next) with an independent policy model and per-step invariants"
 RULE = (
-    "k in 1..4; 1..5 samples with 0..6 single-sample unobserved plates each (counts straddling k) and 0..2 observed plates; a history "
+    "k in 1..4; 1..5 samples with 0..6 single-sample unobserved plates each (counts straddling k) and 0..2 observed plates, plate names drawn so that the plate ids of "
+    "different samples interleave; a history "
     "of up to 3k selections where each step picks ANY plate of the currently allowed set (index drawn by Hypothesis), alternately by "
     "calling filter_eligible_plates directly and through select_next_plate with scores making the pick the unique minimum; plus screens "
     "with a multi-sample plate (must be refused). Non-trivial = history completes >=1 sample and opens a second. distinct = distinct case JSON."
@@ -39,6 +40,8 @@ def _case(draw):
         "samples": samples,
         "picks": draw(st.lists(st.integers(0, 50), min_size=0, max_size=3 * k)),
         "via_select": draw(st.booleans()),
+        # plate ids follow the sorted plate names: a drawn key decides the order, so ids of different samples interleave
+        "name_keys": draw(st.lists(st.integers(0, 99), min_size=40, max_size=40)),
         "multi": draw(st.integers(0, 7)) == 0,
         "multi_observed": draw(st.booleans()),
     }
@@ -51,13 +54,23 @@ def strategy(tier):
 def _build(case):
     rows = []
     observed = []
+    keys = list(case.get("name_keys", []))
+    counter = [0]
+
+    def pname(i, kind, j):
+        k = keys[counter[0] % len(keys)] if keys else 0
+        counter[0] += 1
+        return "%02d_s%d_%s%d" % (k, i, kind, j)  # the sort key comes first: ids interleave across samples
+
     for i, smp in enumerate(case["samples"]):
         for j in range(smp["unobs"]):
+            name = pname(i, "u", j)
             for r in range(smp["rows"]):
-                rows.append({"s": "s%d" % i, "p": "s%d_u%d" % (i, j), "t": ["t%d" % r, "t9"], "d": [1.0, 1.0], "o": 0.5})
+                rows.append({"s": "s%d" % i, "p": name, "t": ["t%d" % r, "t9"], "d": [1.0, 1.0], "o": 0.5})
         for j in range(smp["obs"]):
-            rows.append({"s": "s%d" % i, "p": "s%d_o%d" % (i, j), "t": ["t0", "t9"], "d": [1.0, 1.0], "o": 0.5})
-            observed.append("s%d_o%d" % (i, j))
+            name = pname(i, "o", j)
+            rows.append({"s": "s%d" % i, "p": name, "t": ["t0", "t9"], "d": [1.0, 1.0], "o": 0.5})
+            observed.append(name)
     if case["multi"]:
         name = "mixed"
         rows.append({"s": "s0", "p": name, "t": ["t0", "t9"], "d": [1.0, 1.0], "o": 0.5})
